@@ -19,7 +19,7 @@ func init() {
 			"D3 collapsed short-circuit — normalize returns the edge slot (0 / len−1) whenever the index is beyond the collapsing edge and the collapsed flag is set, and re-tests the flag after extending the range; the flag is raised only inside the type's own adjust (or helpers called only from it), Clear lowers it. "+
 			"D4 Copy keeps kind, limit and collapsed state (C14-D2 obligations are re-evaluated here for the two types). "+
 			"D6 same-kind merge and collapse shapes — every argument bin is added to the slot of its own index or, only when its index lies beyond the receiver's collapsing edge, to the edge slot; after a too-wide adjust the window is exactly the array (minIndex = newMax − len + 1 / maxIndex = newMin + len − 1), which is what bounds the span by the bin limit; the same-kind merge visits the argument's indexes in order, each bin once (order comparisons are read whichever way they are written: a refuted a < b is b ≤ a), and no add inside a loop lies only on paths whose comparisons contradict each other (a loop that never advances). "+
-			"SHARED (re-evaluated here under their home rule ids): C02-D3/D4 for the two collapsing stores (an argument of another kind is merged through its ForEach, bin by bin, whatever order it enumerates in). C15-D1 for the dense and the collapsing stores (Clear resets every field the stores' range arithmetic reads, the bin array's length included — a cleared store grows like a new one). C04-D1 for the two collapsing stores (Add, AddWithCount and AddBin are one operation; a zero weight or an empty bin changes nothing — in particular it neither extends nor collapses the window). "+
+			"SHARED (re-evaluated here under their home rule ids): for the dense family — C04-D2/D4 (totals and extreme indexes), C16-D2 and C13-D3 (the dense Reweight body the collapsing stores inherit, and its refusal table), C14-D2 (deep copies of the collapsing stores), C06-D2/C08-D4 for the generic bin decoder (decoding is part of any history). C02-D3/D4 for the two collapsing stores (an argument of another kind is merged through its ForEach, bin by bin, whatever order it enumerates in). C15-D1 for the dense and the collapsing stores (Clear resets every field the stores' range arithmetic reads, the bin array's length included — a cleared store grows like a new one). C04-D1 for the two collapsing stores (Add, AddWithCount and AddBin are one operation; a zero weight or an empty bin changes nothing — in particular it neither extends nor collapses the window). "+
 			"D5 truncating integer division in the dense family's index arithmetic is applied only to widths (index coefficients cancel) or lengths — `(min+max+1)/2` rounds toward zero, i.e. the wrong way for negative midpoints, and shifts the window by one slot. "+
 			"D7 merge safety on the empty edge — adjust/shiftCounts index bins[i−offset] over [minIndex, maxIndex]; on the empty-store edge of every extendRange the window stored before adjust must fit the freshly allocated array: a single slot, or an allocation with the uncapped length of the requested range (this is the structural necessary condition of 'every merge is safe … including merging a store wider than N into an empty or cleared receiver'). "+
 			"NOT DECIDED: where folded weight lands and conservation of weight through adjust/shiftCounts in general (the relational invariant maxIndex−minIndex+1 ≤ len(bins) is only established at the empty edge, its preservation elsewhere is not proved).",
@@ -112,6 +112,17 @@ func runC05(c *Ctx) {
 			c.shared(func() { c15ClearCovers(c, ct.t, dense, pr) }, func(o *Obligation) bool { return true })
 		}
 		c.shared(func() { c15ClearCovers(c, dense, dense, pr) }, func(o *Obligation) bool { return true })
+	}
+	// "never loses weight … after any history": what the collapsing stores inherit from the dense store or share with
+	// every store — totals and extreme indexes (read side), the dense Reweight body and its refusal table, deep copies,
+	// and the generic bin decoder (every delta accumulated, exactly the announced number of items)
+	if a, err := c.anchors(); err == nil {
+		denseFamily := keyMentions("Collapsing", "DenseStore")
+		c.shared(func() { c04Readers(c) }, denseFamily)
+		c.shared(func() { c16Stores(c, a) }, denseFamily)
+		c.shared(func() { c13Reweight(c, a) }, func(o *Obligation) bool { return denseFamily(o) && strings.Contains(o.Key, "/store.") })
+		c.shared(func() { c14Copies(c, a) }, denseFamily)
+		c.shared(func() { c06Deltas(c, a); c08ItemLoops(c, a) }, keyMentions("ddsketch/store.DecodeAndMergeWith"))
 	}
 	for _, ct := range cts {
 		c05Shadow(c, ct)
